@@ -271,3 +271,47 @@ func VerifC08ModeSwitch() {
 	q.ensureFields()
 	verifAssert(verifSameStrs(q.fields, []string{f1, f2}), "after OUTPUTMODE changed during the run, a rebuilt $0 does not re-parse to the same fields")
 }
+
+// header mode through the public pipeline: @"name" is the cell of the column whose header is name (the last such
+// column when a name repeats, empty when absent), record by record, and each input file has its own header
+func VerifC08NamedFields() {
+	cell := func() string {
+		b := verifByte()
+		verifAssume(b > ' ' && b < 0x7f && b != ',' && b != '"' && b != '#')
+		return string([]byte{b})
+	}
+	h1, h2 := cell(), cell()
+	a1, a2, b1, b2 := cell(), cell(), cell(), cell()
+	file1 := h1 + "," + h2 + "\n" + a1 + "," + a2 + "\n" + b1 + "," + b2 + "\n"
+	g1, g2, c1, c2 := cell(), cell(), cell(), cell()
+	file2 := g2 + "," + g1 + "\n" + c1 + "," + c2 + "\n"
+	fs := &verifFS{files: map[string][]byte{"f1": []byte(file1), "f2": []byte(file2)}}
+	twoFiles := verifIntRange(0, 1) == 1
+	args := []string{"f1"}
+	if twoFiles {
+		args = []string{"f1", "f2"}
+	}
+	src := `{ r = r @"x" ":" @"y" ":" @"nosuch" ":" NF ";" }`
+	cfg := &Config{Stdin: bytes.NewReader(nil), Output: &bytes.Buffer{}, Error: &bytes.Buffer{}, Environ: []string{}, Args: args, OpenFile: fs.open,
+		InputMode: CSVMode, CSVInput: CSVInputConfig{Header: true}}
+	_, err, p := verifRunProgram(src, cfg, nil)
+	verifAssert(err == nil, "run failed")
+	look := func(name string, hs []string, cells []string) string {
+		out := ""
+		for i := range hs {
+			if hs[i] == name {
+				out = cells[i]
+			}
+		}
+		return out
+	}
+	row := func(hs, cells []string) string {
+		return look("x", hs, cells) + ":" + look("y", hs, cells) + "::2;"
+	}
+	want := row([]string{h1, h2}, []string{a1, a2}) + row([]string{h1, h2}, []string{b1, b2})
+	if twoFiles {
+		want += row([]string{g2, g1}, []string{c1, c2})
+	}
+	verifReach("compared")
+	verifAssert(verifGlobal(p, "r").s == want, "@\"name\" is not the cell under the header of that name in the current file (last column of that name, empty when absent)")
+}
